@@ -35,7 +35,57 @@ BUILD = os.path.join(ROOT, "build")
 EVID = os.path.join(ROOT, "evidence")
 REPLAYS = os.path.join(ROOT, "replays")
 
-CANARY = "\nverus! {\nproof fn __verif_canary() ensures false {} // @CANARY\n}\n"
+CANARY = ("\nverus! {\nproof fn __verif_canary() ensures false {} // @CANARY\n"
+          "#[verifier::external_body] pub fn verif_nondet_bool() -> bool { unimplemented!() }\n}\n")
+
+
+def havoc_conditions(src, frontend):
+    """R5-auto: a condition (`if COND {`, `while COND {`, match guard `if COND =>`) that contains a construct outside the
+    verifier's dialect is replaced by an unconstrained bool.  Sound for proofs (both outcomes are explored) and it keeps
+    an edited function decidable instead of UNDECIDED.  Returns (new_src, [descriptions]) or (None, [])."""
+    bsrc = src.encode("utf-8")
+    toks = extract.code_tokens(src)
+    edits = []
+    for fe in frontend:
+        off = len(bsrc[:fe["byte_start"]].decode("utf-8", "ignore"))
+        best = None
+        for idx, (kind, s, e) in enumerate(toks):
+            if s > off:
+                break
+            if kind == "ident" and src[s:e] in ("if", "while"):
+                # condition ends at the block-opening brace or at `=>` (match guard), whichever comes first
+                depth = 0
+                end = None
+                for j in range(idx + 1, len(toks)):
+                    k2, s2, e2 = toks[j]
+                    if k2 != "punct":
+                        continue
+                    ch = src[s2]
+                    if ch in "([":
+                        depth += 1
+                    elif ch in ")]":
+                        depth -= 1
+                        if depth < 0:
+                            break
+                    elif ch == "{" and depth == 0:
+                        end = s2
+                        break
+                    elif ch == "=" and depth == 0 and src[s2:s2 + 2] == "=>":
+                        end = s2
+                        break
+                    elif ch == ";" and depth == 0:
+                        break
+                if end is not None and e <= off < end and not src[e:end].strip().startswith("let "):
+                    best = (e, end)
+        if best and best not in [(a, b) for a, b, _ in edits]:
+            edits.append((best[0], best[1], src[best[0]:best[1]].strip()))
+    if not edits:
+        return None, []
+    out = src
+    for a, b, txt in sorted(edits, reverse=True):
+        out = out[:a] + " verif_nondet_bool() " + out[b:]
+    return out, ["R5-auto: condition `%s` is outside the verifier's dialect; replaced by an unconstrained bool" % t[:160]
+                 for _, _, t in edits]
 
 
 class Undecided(Exception):
@@ -75,6 +125,22 @@ def scan_assumptions(src):
     return found
 
 
+UNTYPED_CLOSURE = __import__("re").compile(r"(?<![|&])\|\s*[a-z_][a-z0-9_]*(\s*,\s*[a-z_][a-z0-9_]*)*\s*\|(?!\s*->)(?!\|)")
+
+
+def weak_functions(src):
+    """Exec functions whose extracted text still contains a closure without a contract (untyped parameters, no `->`):
+    the verifier knows nothing about such a closure's result, so a failed obligation in that function is UNDECIDED
+    (limit of the dialect), never a violation."""
+    weak = {}
+    for a, b, nm in verus.fn_ranges(src):
+        body = "\n".join(src.split("\n")[a - 1:b])
+        m = UNTYPED_CLOSURE.search(body)
+        if m:
+            weak[nm] = m.group(0)
+    return weak
+
+
 def run_unit(name, tier):
     """Returns a result dict for one unit (never raises for verifier failures)."""
     t0 = time.time()
@@ -106,7 +172,7 @@ def run_unit(name, tier):
         out["undecided"] = "labelled obligations differ from the unit's fixed list: missing=%s extra=%s" % (missing, extra)
         return out
     # assumption scan versus declared list
-    scan = scan_assumptions(src)
+    scan = scan_assumptions(src[:-len(CANARY)])
     declared = getattr(unit, "ASSUMED", [])
     n_declared = sum(a.get("count", 1) for a in declared)
     out["assumption_scan"] = {"found": len(scan), "declared": n_declared}
@@ -116,6 +182,17 @@ def run_unit(name, tier):
         return out
     out["assumptions"] = [a["what"] for a in declared] + list(getattr(unit, "TRUSTED", []))
     r = verus.run(b["path"], rlimit=getattr(unit, "RLIMIT", 30))
+    out["auto_rewrites"] = []
+    for _ in range(4):
+        if not (r["undecided"] and r.get("frontend")):
+            break
+        new_src, notes = havoc_conditions(open(b["path"], encoding="utf-8").read(), r["frontend"])
+        if new_src is None:
+            break
+        with open(b["path"], "w", encoding="utf-8") as f:
+            f.write(new_src)
+        out["auto_rewrites"] += notes
+        r = verus.run(b["path"], rlimit=getattr(unit, "RLIMIT", 30))
     out["cmd"] = r["cmd"]
     out["smt_ms"] = r.get("smt_ms", 0)
     out["verus_total_ms"] = r.get("total_ms", 0)
@@ -128,6 +205,12 @@ def run_unit(name, tier):
         out["undecided"] = "vacuity guard: `ensures false` canary verified (prelude is inconsistent)"
         return out
     fails = [f for f in r["failures"] if f["fn"] != "__verif_canary"]
+    weak = weak_functions(open(b["path"], encoding="utf-8").read())
+    lost = [f for f in fails if f["fn"] in weak]
+    if lost:
+        out["undecided"] = ("function(s) %s contain a closure without a contract (%s): failed obligations there are not decided" %
+                            (sorted({f["fn"] for f in lost}), "; ".join(sorted({weak[f["fn"]] for f in lost}))))
+        return out
     out["functions"] = [f for f in r["functions"] if f["function"] != "__verif_canary"]
     exec_fns = [f["function"] for f in out["functions"]]
     exp_fns = list(getattr(unit, "FUNCTIONS", []))
